@@ -75,7 +75,8 @@ def run_real(obs, nvars, automatic, max_iter, alpha0=1):
             new = old + errs[v]
             results += [new, old]
             net_["_active_pit"][PITS[v]][0, cols[v]] = FRESH
-        return results, np.array([resid]), [None] * nvars
+        # the residual vector handed to the driver: its largest-magnitude entry is negative (the norm in force is max|r|)
+        return results, np.array([-resid, 0.0]), [None] * nvars
 
     pf.newton_raphson(net, funct, "hydraulics", VARS[:nvars], TOLS[:nvars], PITS[:nvars], "max_iter_hyd")
     if state["k"] > 0:
@@ -165,6 +166,12 @@ def gen(rng):
     s = netgen.gen_hydraulic(rng, n_junc=int(rng.integers(3, 10)))
     if rng.random() < 0.3:
         s = netgen.gen_heat_tree(rng)
+    if rng.random() < 0.12:
+        # the smallest nets (a single flowing pipe) with the implicit friction model: scalar code paths of the libraries used
+        s = netgen.gen_hydraulic(rng, n_junc=2, features={"p_outage": 0.0, "p_pipe_valve": 0.0, "p_special": 0.0, "p_hex": 0.0})
+        s["options"]["friction_model"] = "colebrook"
+        s["options"]["max_iter_colebrook"] = 100
+        hist = [{"kind": "ok"}, {"kind": str(rng.choice(["singular", "infeasible"]))}, {"kind": "ok"}]
     s["c05"] = hist
     return s
 
@@ -298,6 +305,15 @@ def scripted_clause_check():
                                       "detail": {"automatic": automatic, "variables": nv, "nan_at": "residual" if pos == nv else pos,
                                                  "iterations_before": len(pre), "converged": True},
                                       "replay": {"case": {"scripted": "nan"}}})
+    # "residual within tol_res": the residual vector's largest-magnitude entry is negative and above the tolerance, every
+    # change far inside its tolerance -> must not converge
+    for automatic in (False, True):
+        for nv in (1, 2, 3):
+            c, n, a, tr = run_real([(1.0, [1e-12] * nv)] * 2, nv, automatic, 2, 1)
+            if c:
+                fails.append({"fingerprint": "C05:residual-above-tol-accepted", "clause": "converged => residual within tol_res",
+                              "detail": {"automatic": automatic, "variables": nv, "residual_vector": [-1.0, 0.0], "tol_res": 1e-3},
+                              "replay": {"case": {"scripted": "residual"}}})
     w2 = [(0.0, [1.0, 1e-9]), (0.0, [1e-6, 2e-9])]
     c, n, a, tr = run_real(w2, 2, True, 10, 1)
     if c and any(tr[-1][2]):
